@@ -243,6 +243,9 @@ func respFamily(run *report.Run, mode string) {
 	defer env.Close()
 	var states []BState
 	for _, c := range respCells(run.Tier) {
+		if c.Attrs["only"] != "" && c.Attrs["only"] != mode {
+			continue
+		}
 		pl := respPayload(c.Spec, mode, c.ID)
 		jp := &drv.JSONPayload{}
 		jsonDiscInfo(c.Spec, jp)
